@@ -92,6 +92,9 @@ Not decided: that a warning never alters *dependent* definitions' bindings in wa
     // "a warning about one definition never alters the bindings of definitions that do not depend on it": an assignment (REAL,
     // an unsupported kind, ..) whose parser consumes the comments behind it takes the doc comments of the next one (= C11.comments)
     crate::rules::c11::trailing_trivia(m, ctx, "C10.comments");
+    // "every top-level assignment of a successfully parsed input is accounted for" presupposes that every source handed to the
+    // builder reaches the lexer: the add_* methods evaluated per typestate (the analysis lives with C20.sources)
+    crate::rules::util::borrow(ctx, "C20", "C20.sources", "C10.sources", &mut |sub| crate::rules::c20::builder_sources(m, sub));
     bound_errors_reported(m, ctx);
     let consts = const_resolver(m);
 
